@@ -8,7 +8,7 @@ source) is compared with that of the original description.  Re-descriptions that
 must agree to 1e-9 (relative Frobenius); those that change which triangle of a pair is integrated analytically
 must stay within the measured asymmetry bound of calib/C06.json (measured, never a proof)."""
 import os, sys, json, math, shutil
-import core, models, geomdesc as gd
+import core, models, geomdesc as gd, bounded
 
 PROP = "C06"
 EXACT_TOL = 1e-9
@@ -283,8 +283,9 @@ def main(replay=None):
         # known witness: the same head with its Domains section listed in reverse order
         wv = gd.redescribe(wm, wr, "identity"); wv["domains"] = list(reversed(wv["domains"]))
         add(len(runs), wv, "tri", "1.1", False, wd, ws, "domain_order", bi)
-    rc_, io, err = core.run_harness(hb, [r["hline"] for r in runs], ck.workdir, timeout=1500, env={"OMP_NUM_THREADS": "2"})
-    outs = [core.fparse(l) for l in io]
+    rc_, io, err, tnotes = bounded.run_harness_bounded(hb, [r["hline"] for r in runs], ck.workdir, tier=ck.tier, env={"OMP_NUM_THREADS": "2"})
+    ck.notes += tnotes
+    outs = [((None, None) if l.startswith("TIMEOUT") else core.fparse(l)) for l in io]
     dist = {}; worst = {}; nontriv = 0
     for r, (zi, fl) in zip(runs, outs):
         dist[r["kind"]] = dist.get(r["kind"], 0) + 1
@@ -294,6 +295,9 @@ def main(replay=None):
         rep = dict(kind="metamorphic", cases=[dict(model=x["model"], fmt=x["fmt"], style=x["style"], api=x["api"], dips=x["dips"], sens=x["sens"], kind=x["kind"], old=x.get("old", False), obs=x.get("obs", [])) for x in (base, r)],
                    replay_cmd="./check C06 --replay <this file>")
         top = base["model"]["info"].get("topology", "?")
+        line_ = io[runs.index(r)]
+        if line_.startswith("TIMEOUT"):
+            ck.violation("%s: time limit (%s)" % (r["kind"], top), "time limit: the implementation does not terminate (%s) on the %s re-description of a %s model" % (line_, r["kind"], top), rep); continue
         if zi is None or bz is None or zi[0] != 0 or bz[0] != 0:
             ck.violation("%s: load/compute fails (%s)" % (r["kind"], top), "gain computation fails for the %s re-description of a %s model: base %s, variant %s" % (r["kind"], top, io[r["base"]][:60], io[runs.index(r)][:60]), rep)
             continue
@@ -330,9 +334,9 @@ def main(replay=None):
                     cid = 50000 + q; d = os.path.join(ck.workdir, "c%d" % cid); shutil.rmtree(d, ignore_errors=True); os.makedirs(d)
                     gd.write_geom(v, d, "tri", "1.1", rng); gd.write_cond(v, d, None)
                     lines.append(core.fcase("c06", [1, cid, len(base["dips"]), len(base["sens"]), 0, len(base["obs"]), 1 if v.get("info", {}).get("kind") == "nested" and len(v["meshes"]) >= 2 else 0], [x for dd in base["dips"] for x in dd] + [x for s_ in base["sens"] for x in s_] + [x for o_ in base["obs"] for x in o_]))
-                _, so, _ = core.run_harness(hb, lines, ck.workdir, timeout=900, tag="shrink")
+                _, so, _, _ = bounded.run_harness_bounded(hb, lines, ck.workdir, tier=ck.tier, tag="shrink")
                 for (v, what), l in zip(cands, so):
-                    z2, f2 = core.fparse(l)
+                    z2, f2 = (None, None) if l.startswith("TIMEOUT") else core.fparse(l)
                     if z2 and z2[0] == 0 and len(f2) == len(bf) and not within(differ3(bf, f2, bz, z2), cls):
                         rep["cases"][1] = dict(model=v, fmt="tri", style="1.1", api=False, dips=base["dips"], sens=base["sens"], kind=r["kind"])
                         rep["shrunk_to"] = what + " (difference %.3g)" % differ(bf, f2, bz, z2)
